@@ -63,6 +63,14 @@ inductive Stage
       second read of the open file fails -/
   | duringFdinfo (second : Bool) (e : CloseErr)
 
+/-- where the kernel refuses the monitor while it inspects one descriptor (EACCES: the ptrace
+    access check of /proc/pid/fd/n and /proc/pid/fdinfo/n fails, e.g. after the target changed
+    credentials) -/
+inductive DenyAt
+  | readlink      -- readlink of /proc/pid/fd/n
+  | fdinfo        -- open of /proc/pid/fdinfo/n
+  deriving DecidableEq, Repr
+
 structure Fd where
   n : Nat
   kind : FdKind
@@ -71,6 +79,8 @@ structure Fd where
   /-- whatever follows the `flags:` line in fdinfo (mnt_id, ino, lock and eventfd lines, …) -/
   tail : Bytes
   closesAt : Option Stage
+  /-- the monitor is refused at this access of this descriptor -/
+  deniedAt : Option DenyAt := none
 
 def delText : Bytes := [32, 40, 100, 101, 108, 101, 116, 101, 100, 41]      -- " (deleted)"
 
@@ -98,13 +108,14 @@ def linkErrOf : CloseErr → LinkErr
 def renderFd (d : Fd) : Entry :=
   { name := renderDec d.n
     link := match d.closesAt with
-      | some (.beforeReadlink e) => .err (linkErrOf e)
-      | _ => .ok (linkText d.kind)
+      | some (.beforeReadlink e) => .err (linkErrOf e)         -- a descriptor that is gone answers ENOENT
+      | _ => if d.deniedAt = some .readlink then .err .eacces else .ok (linkText d.kind)
     info := match d.closesAt with
       | some (.beforeReadlink e) => .openErr e
       | some (.beforeFdinfo e) => .openErr e
-      | some (.duringFdinfo second e) => .readErr (fdinfoText d) second e
-      | none => .ok (fdinfoText d) }
+      | some (.duringFdinfo second e) =>
+        if d.deniedAt = some .fdinfo then .openDenied else .readErr (fdinfoText d) second e
+      | none => if d.deniedAt = some .fdinfo then .openDenied else .ok (fdinfoText d) }
 
 /-- a process seen through /proc while one call runs -/
 structure World where
@@ -115,6 +126,12 @@ structure World where
   /-- the process disappears while the scan is at descriptor index `k` (counting from 0):
       from then on nothing under `/proc/<pid>` can be read -/
   diesAt : Option Nat
+  /-- the process is a zombie (state `Z` in /proc/pid/stat): it has exited and holds no
+      descriptors any more, but its pid is still there -/
+  zombie : Bool := false
+  /-- `/proc/<pid>/fd` itself may not be listed by the monitor (another user's process, or a
+      zombie seen by a non-root monitor: the directory then belongs to root) -/
+  dirDenied : Bool := false
 
 /-- the table as the scan meets it when the process dies at index `k` -/
 def killFrom : Nat → List Fd → List Fd
@@ -133,8 +150,10 @@ def World.vanished (w : World) : Bool :=
   w.goneBefore || (match w.diesAt with | some k => decide (k < w.fds.length) | none => false)
 
 def renderWorld (w : World) : Proc :=
-  { fdDir := if w.goneBefore then .err .enoent else .ok (w.seen.map renderFd)
-    alive := !w.vanished }
+  { fdDir := if w.goneBefore then .err (.gone .enoent)
+             else if w.dirDenied then .err .denied else .ok (w.seen.map renderFd)
+    alive := !w.vanished
+    zombie := w.zombie }
 
 /-! ### what the user is promised -/
 
@@ -147,11 +166,47 @@ def listed (fs : FS) (d : Fd) : Option POpenFile :=
     if fs.isFile path then some ⟨path, d.n, d.pos, mode d.flags, d.flags⟩ else none
   | _, _ => none
 
+/-! ### permission: what the monitor is refused
+
+  psutil's documented contract: a call that the operating system refuses for lack of
+  permission raises `AccessDenied(pid)` — never a bare PermissionError, and never a silently
+  shortened list (the statement says *exactly*). -/
+
+/-- `os.stat` of the path the descriptor points to is refused (the monitor cannot tell whether
+    it is a regular file). Only absolute targets are ever stat'ed. -/
+def statDenied (fs : FS) : FdKind → Bool
+  | .regular path deleted => fs.denied path || (deleted && fs.denied (path ++ delText))
+  | .device path => fs.denied path
+  | _ => false
+
+/-- fdinfo is consulted only for descriptors that were found to point to a regular file -/
+def reachesFdinfo (fs : FS) : FdKind → Bool
+  | .regular path _ => fs.isFile path
+  | _ => false
+
+/-- the monitor is refused while inspecting this descriptor (a descriptor that is already gone
+    when its link is read answers ENOENT, not EACCES) -/
+def deniedFd (fs : FS) (d : Fd) : Bool :=
+  match d.closesAt with
+  | some (.beforeReadlink _) => false
+  | some (.beforeFdinfo _) => d.deniedAt == some .readlink || statDenied fs d.kind
+  | _ => d.deniedAt == some .readlink || statDenied fs d.kind ||
+         (d.deniedAt == some .fdinfo && reachesFdinfo fs d.kind)
+
+/-- the call is refused: the descriptor directory may not be listed, or some descriptor met
+    while the process is still there may not be inspected -/
+def World.denied (w : World) : Bool := w.dirDenied || w.seen.any (deniedFd w.fs)
+
 def expectedOpenFiles (w : World) : Outcome (List POpenFile) :=
-  if w.vanished then .exc .noSuchProcess else .ok (w.fds.filterMap (listed w.fs))
+  if w.goneBefore then .exc .noSuchProcess
+  else if w.denied then .exc .accessDenied
+  else if w.vanished then .exc .noSuchProcess
+  else .ok (w.fds.filterMap (listed w.fs))
 
 def expectedNumFds (w : World) : Outcome Nat :=
-  if w.goneBefore then .exc .noSuchProcess else .ok w.fds.length
+  if w.goneBefore then .exc .noSuchProcess
+  else if w.dirDenied then .exc .accessDenied
+  else .ok w.fds.length
 
 /-! ### well-formed tables: what the kernel can print, minus the inherently ambiguous texts
 
@@ -168,9 +223,10 @@ def WFKind (fs : FS) : FdKind → Prop
       (if deleted then fs.pathExists (path ++ delText) = false
        else (endsWith delText path = true → fs.pathExists path = true))
   | .device path =>
-    0 ∉ path ∧ fs.isFile path = false ∧ fs.isFile (stripDel path) = false
-  | .relative target => target.head? ≠ some 47
-  | _ => True
+    path.head? = some 47 ∧ 0 ∉ path ∧ fs.isFile path = false ∧ fs.isFile (stripDel path) = false ∧
+      (fs.denied (stripDel path) = true → fs.denied path = true)
+  | .relative target => target.head? ≠ some 47 ∧ fs.denied (target.takeWhile (· != 0)) = false
+  | k => fs.denied ((linkText k).takeWhile (· != 0)) = false
 
 def WFFd (fs : FS) (d : Fd) : Prop := WFKind fs d.kind
 
